@@ -172,16 +172,20 @@ func c12(c *ctx) {
 			die("corpus run: %v", err)
 		}
 		if cp.WatchdogHits > 0 {
-			c.run.Incon(fmt.Sprintf("%d child processes were stopped by the wall-clock watchdog", cp.WatchdogHits))
+			c.run.Incon(fmt.Sprintf("%d child processes were stopped by the wall-clock watchdog or killed from outside (not by this check's limits)", cp.WatchdogHits))
 		}
+		c.run.Max("peak_child_resident_mb", cp.PeakMB)
 		base := map[*hcase][]string{}
 		baseOK := map[*hcase][]bool{}
+		have := map[*hcase][]bool{} // a baseline result lost with its child process is no baseline
 		for i, s := range slots {
 			if s.kind == "fresh" && s.cfg == "fresh/uint32/size0/memo" && !results[i].Lost {
 				if base[s.hc] == nil {
 					base[s.hc] = make([]string, len(s.hc.hist))
 					baseOK[s.hc] = make([]bool, len(s.hc.hist))
+					have[s.hc] = make([]bool, len(s.hc.hist))
 				}
+				have[s.hc][s.k] = results[i].Fatal == ""
 				base[s.hc][s.k] = resKey(&results[i])
 				baseOK[s.hc][s.k] = results[i].OK
 				c.run.Eval(1)
@@ -209,6 +213,9 @@ func c12(c *ctx) {
 				if s.cfg == "fresh/uint32/size0/memo" {
 					continue
 				}
+				if !have[s.hc][s.k] {
+					continue
+				}
 				c.run.Eval(1)
 				if got := resKey(&res); got != base[s.hc][s.k] {
 					c.run.Violate("config:"+s.cfg+":"+hid, fmt.Sprintf("result depends on the instantiation/Size: %s differs from uint32/default size", s.cfg),
@@ -226,6 +233,9 @@ func c12(c *ctx) {
 			}
 			shrinkAfterSuccess, successAfterFailure := false, false
 			for k := range res.Hist {
+				if !have[s.hc][k] {
+					continue
+				}
 				c.run.Eval(1)
 				if got := resKey(&res.Hist[k]); got != base[s.hc][k] {
 					c.run.Violate("leak:"+s.cfg+":"+hid, fmt.Sprintf("step %d of a history on one reused parser (%s) differs from a fresh parser on the same input", k, s.cfg),
